@@ -50,6 +50,9 @@ int main(VF_MAIN_ARGS)
 static int body(void)
 {
     cJSON item; printbuffer p; unsigned char *buf; size_t off, tl, k; cJSON_bool ok; double d, val; int finite, intvalued;
+#if VF_ONLY == 4 || VF_ONLY == 5
+    VF_ASSUME(IN.off == 0);      /* value/format obligations do not depend on the start offset (C09 keeps it symbolic) */
+#endif
     VF_ASSUME(IN.off <= N);
     off = IN.off; d = IN.d;
     memset(&item, 0, sizeof item); item.type = cJSON_Number; item.valuedouble = d; item.valueint = IN.vi;
